@@ -336,8 +336,7 @@ pub fn replay_tl_line(tally: &mut Tally, lineno: usize, line: &Value, scales: &[
         }
     }
     // the i32 property with every value moved to the odd integers just below 2^24 (all of them f32 numbers): wherever
-    // the specification predicts exactly a keyframe's value (keyframe hit, up to the delay, pass ends, after the end)
-    // the result is that integer exactly
+    // the position is on a keyframe, up to the delay, or at / after the end, the result is that integer exactly
     if let (Some(ni), false) = (pmap.iter().position(|&p| p == 3), has_ov) {
         let r = catch_unwind(AssertUnwindSafe(|| {
             let mut local = Tally::new();
@@ -346,6 +345,10 @@ pub fn replay_tl_line(tally: &mut Tally, lineno: usize, line: &Value, scales: &[
             for (ti, exp) in line["evals"].as_array().unwrap().iter().enumerate() {
                 let alts = exp[ni].as_array().unwrap();
                 if alts.is_empty() || !alts.iter().all(|a| a[0] == "i") { continue; }
+                // only where the value IS a keyframe's (position on a keyframe, up to the delay, at / after the end): a
+                // held stretch between a keyframe and the implicit 100% frame is an interpolation lerp(a, a, x), which
+                // from 2^22 on is subject to the f32 rounding recorded as C14's known finding
+                if !matches!(line["cls"][ti][ni].as_str(), Some("hit") | Some("pre") | Some("end")) { continue; }
                 let defined = |v: i64| line["kfs"].as_array().unwrap().iter().any(|k| k["d"][ni].as_array().unwrap().first().and_then(|x| x.as_i64()) == Some(v));
                 // (a plain 0 may also be the type's default of the implicit 0% keyframe: that one is not moved)
                 let want: Vec<i32> = alts.iter().map(|a| { let v = a[1].as_i64().unwrap(); if defined(v) { band_of(v) } else { v as i32 } }).collect();
